@@ -1372,6 +1372,46 @@ def corr_temp(ctx, wd):
         live = sorted(os.listdir(wd.tmp))
         reqs.append({"op": "c15.temp", "fails": False, "members": [True] * n_members, "consumer": consumer, "k": k})
         reals.append((consumer, k, outcome, got, live))
+    # fault point "unpacking fails after the header and the file list parsed": the fixture with bytes of its packed
+    # streams flipped (start header, next-header offset/size/CRC and the header itself stay intact)
+    blob = open(p, "rb").read()
+    hdr_off = 32 + int.from_bytes(blob[12:20], "little")
+    for di, (lo, n) in enumerate([(32 + (hdr_off - 32) // 2, 6), (40, 3), (max(33, hdr_off - 9), 4)]):
+        if not (32 < lo and lo + n <= hdr_off):
+            continue
+        bad = bytearray(blob)
+        for i in range(lo, lo + n):
+            bad[i] ^= 0xA5
+        bp = os.path.join(wd.root, f"damaged{di}.7z")
+        with open(bp, "wb") as fh:
+            fh.write(bytes(bad))
+        for consumer, k in (("exhaust", 0), ("close", 1)):
+            got, outcome = 0, "finished"
+            gen = sharepoint2text.read_file(bp)
+            try:
+                for r in gen:
+                    got += 1
+                    if consumer == "close" and got == k:
+                        gen.close()
+                        outcome = "closed"
+                        break
+            except Exception:  # noqa: BLE001
+                outcome = "raised"
+            del gen
+            gc.collect()
+            live = sorted(os.listdir(wd.tmp))
+            fails = outcome == "raised" and got == 0
+            ctx.count("temp/damaged/" + ("unpack-fails" if fails else "unpack-survives"))
+            if fails:    # a flip the decoder does not notice is a healthy run and adds nothing
+                reqs.append({"op": "c15.temp", "fails": True, "members": [True] * n_members, "consumer": consumer, "k": k})
+                reals.append((f"damaged{di}:{consumer}", k, outcome, got, live))
+            for x in live:
+                if fails:
+                    violations.append(Violation("temp.directory-left-behind",
+                                                f"7z whose unpacking fails (fixture with {n} bytes flipped at offset {lo}): {live} left in the temp root",
+                                                {"kind": "temp", "damaged": [lo, n]}))
+                shutil.rmtree(os.path.join(wd.tmp, x), ignore_errors=True)
+        os.unlink(bp)
     outs = ctx.drive(reqs)
     for (consumer, k, outcome, got, live), mo in zip(reals, outs):
         ctx.case(("temp", consumer, k))
